@@ -242,8 +242,9 @@ def run(chk):
             pl = path_lengths(kids, root, n)
             if any(abs(pl[i, j] - m[i][j]) > 1e-9 for i in range(n) for j in range(i + 1, n)):
                 fails.append(('_neighbor', m, 'path sums of the NJ tree do not reproduce the input distances'))
-    chk.tested_not_proved += ['UPGMA ultrametricity (telescoping branch = height(new) - height(child)), UPGMA clade recovery on ultrametric matrices with distinct '
-                              'node heights, NJ topology and path-sum recovery on additive matrices: tested on generated trees, not proved (second tier)',
+    chk.tested_not_proved += ['UPGMA ultrametricity on floats (proved for exact arithmetic by C09_upgma_ultrametric; with rounding it is tested with a relative tolerance 1e-9), '
+                              'UPGMA clade recovery on ultrametric matrices with distinct node heights, NJ topology and path-sum recovery on additive matrices: tested on '
+                              'generated trees, not proved',
                               'NJ structure clause (join sequence valid, n-1 joins, leaves = taxa): oracle on every generated matrix']
     chk.extra['identified_upgma_lastMin'] = ident.get('_upgma')
     for w in ('_upgma', '_neighbor'):
